@@ -167,7 +167,10 @@ def gen_script(rng, tier):
             z = rng.choice([65536, 1 << 20])
         else:
             z = rng.choices(SIZES[:4], [3, 3, 3, 1])[0]
-        return {"p": pid[side] if rng.random() < 0.93 else max(1, pid[side] - 1), "z": z}
+        # shape variant of the map / omit-when-empty fields: consecutive messages mostly differ in key sets and
+        # in which fields the wire form omits
+        v = rng.choices([0, 1, 2, 3, 4], [3, 3, 2, 2, 2])[0]
+        return {"p": pid[side] if rng.random() < 0.93 else max(1, pid[side] - 1), "z": z, "v": v}
 
     def csend(**kw):
         ops.append(dict({"s": "c", "a": "send"}, **pay(0, kw.pop("big", False)), **kw))
@@ -389,8 +392,8 @@ def _chunks(text, table):
     return clist(out)
 
 
-def _pay(p, z, bad=False):
-    return cN((int(p) << 21) + int(z) + ((1 << 44) if bad else 0))
+def _pay(p, z, v=0, bad=False):
+    return cN(((int(p) * 8 + int(v)) << 21) + int(z) + ((1 << 60) if bad else 0))
 
 
 def _rsl(ob, table):
@@ -398,7 +401,7 @@ def _rsl(ob, table):
     if k == "ok":
         return "ROk"
     if k == "val":
-        return "(RVal %s)" % _pay(ob.get("p", 0), ob.get("z", 0), ob.get("bad", False))
+        return "(RVal %s)" % _pay(ob.get("p", 0), ob.get("z", 0), ob.get("v", 0), ob.get("bad", False))
     return "(RErr %s %s %s)" % (cN(ob.get("cls", 0)), cN(ob.get("in", 0)), _chunks(ob.get("msg", ""), table))
 
 
@@ -461,7 +464,7 @@ def to_coq(case, r):
     cl = []
     for o, ob in zip(cops, r["c"]):
         if o["a"] == "send":
-            cl.append("CSend %s %s" % (_pay(o["p"], o["z"]), _rsl(ob, table)))
+            cl.append("CSend %s %s" % (_pay(o["p"], o["z"], o.get("v", 0)), _rsl(ob, table)))
         elif o["a"] == "close":
             cl.append("CClose %s" % _rsl(ob, table))
         else:
@@ -474,7 +477,7 @@ def to_coq(case, r):
             break
         ob = hobs.pop(0)
         if o["a"] == "send":
-            hl.append("HSend %s %s" % (_pay(o["p"], o["z"]), _rsl(ob, table)))
+            hl.append("HSend %s %s" % (_pay(o["p"], o["z"], o.get("v", 0)), _rsl(ob, table)))
         else:
             hl.append("HRecv %s" % _rsl(ob, table))
     return cpair(cN(T_ID[case["t"]]), clist(cl), clist(hl))
@@ -509,6 +512,7 @@ def histogram(case, r):
     for o in case["ops"]:
         if o["a"] == "send":
             ks.append("size=%d" % o.get("z", 0))
+            ks.append("shape=%d" % o.get("v", 0))
         if o.get("nw"):
             ks.append("nowait_op")
     seen_ret = False
@@ -586,7 +590,9 @@ def model_dump(case, r):
 
 
 RULE = ("scripts of client Send/CloseSend/Receive and handler Receive/Send/return(err) in 8 styles (echo, burst, mixed, "
-        "close-first, early return with racing sends, API misuse after close/terminal, free-running, 64 KiB/1 MiB payloads), "
+        "close-first, early return with racing sends, API misuse after close/terminal, free-running, 64 KiB/1 MiB payloads, "
+        "mock request buffer filled exactly before CloseSend); payloads carry a map, an omit-when-empty text and slice in 5 "
+        "shapes (received payloads are compared in full at receipt and again after the stream), "
         "each run on the mock transport and on 1-4 of websocket/json, websocket/msgpack, grpc, grpc(Internal); handler "
         "results over nil + 17 error kinds x 6 message variants (incl. the wire separator). Non-trivial = at least one "
         "message delivered, the client observed the terminal result, and a client Send raced/followed the handler's "
